@@ -4,13 +4,18 @@ REGISTRY = {}      # (file, qualname) -> Contract
 BY_NAME = {}       # simple function name / 'Class.method' -> [Contract]
 
 
-def _clauses(xs):
+WITNESS = {}      # (id of contract clause list entry) -> not used; witnesses are stored per contract in hints['witness'][label]
+
+
+def _clauses(xs, witness=None):
     out = []
     for i, x in enumerate(xs or []):
         if isinstance(x, str):
             out.append(('c%d' % i, x))
         else:
             out.append((x[0], x[1]))
+            if len(x) > 2 and witness is not None:
+                witness[x[0]] = x[2]['witness']
     return out
 
 
@@ -24,7 +29,8 @@ class Contract:
         self.file, self.qual = file, qual
         self.params = dict(params or {})        # name -> type string (ordered)
         self.requires = _clauses(requires)
-        self.ensures = _clauses(ensures)
+        self.witness = {}                       # ensures label -> {bound var: witness expr} for existential goals
+        self.ensures = _clauses(ensures, self.witness)
         self.raises = list(raises or [])        # (ExcName, condition expr, 'iff'|'may')
         self.result = result                    # type string of the result (None: infer / None)
         self.ghost = dict(ghost or {})          # name -> init expr
